@@ -69,6 +69,10 @@ func hexVal(c byte) int {
 // the literal ends, not which escapes are well-formed; the oracle proper is strict.
 var jsLenientEscapes = false
 
+// jsHTMLLikeComments: `<!--` and (at the start of a line) `-->` begin a single-line comment (Annex
+// B.1.1; what a browser does in a classic script)
+var jsHTMLLikeComments = true
+
 func jsString(s string, i int, q byte) (val string, end int, ok bool) {
 	var b []byte
 	for i < len(s) {
@@ -145,9 +149,19 @@ func jsTokens(s string) []tok {
 	var braces []int     // template-literal nesting: brace depth at each `${`
 	depth := 0
 	i := 0
+	// lineStart: only white space and comments since the last line terminator (or the start): a
+	// `-->` here is a SingleLineHTMLCloseComment (ECMAScript Annex B.1.1, scripts that are not modules)
+	lineStart := true
 	add := func(t tok, reAfter bool) {
 		out = append(out, t)
 		regexAllowed = reAfter
+		lineStart = false
+	}
+	lineEnd := func(j int) int {
+		for j < len(s) && s[j] != '\n' && s[j] != '\r' && !strings.HasPrefix(s[j:], "\u2028") && !strings.HasPrefix(s[j:], "\u2029") {
+			j++
+		}
+		return j
 	}
 	// scans template characters from i (after a backtick or a closing `}`)
 	template := func() {
@@ -179,16 +193,27 @@ func jsTokens(s string) []tok {
 	for i < len(s) {
 		c := s[i]
 		switch {
-		case c == ' ' || c == '\t' || c == '\n' || c == '\r' || c == '\f' || c == '\v':
+		case c == '\n' || c == '\r':
+			lineStart = true
 			i++
-		case strings.HasPrefix(s[i:], "\u2028") || strings.HasPrefix(s[i:], "\u2029") || strings.HasPrefix(s[i:], "\ufeff"):
+		case c == ' ' || c == '\t' || c == '\f' || c == '\v':
+			i++
+		case strings.HasPrefix(s[i:], "\u2028") || strings.HasPrefix(s[i:], "\u2029"):
+			lineStart = true
+			i += 3
+		case strings.HasPrefix(s[i:], "\ufeff"):
 			i += 3
 		case strings.HasPrefix(s[i:], "//"):
-			j := i
-			for j < len(s) && s[j] != '\n' && s[j] != '\r' && !strings.HasPrefix(s[j:], "\u2028") && !strings.HasPrefix(s[j:], "\u2029") {
-				j++
-			}
+			j := lineEnd(i)
 			out = append(out, tok{sig: "js:line-comment", slot: true, val: s[i+2 : j]})
+			i = j
+		case jsHTMLLikeComments && strings.HasPrefix(s[i:], "<!--"):
+			j := lineEnd(i)
+			out = append(out, tok{sig: "js:html-open-comment", slot: true, val: s[i+4 : j]})
+			i = j
+		case jsHTMLLikeComments && lineStart && strings.HasPrefix(s[i:], "-->"):
+			j := lineEnd(i)
+			out = append(out, tok{sig: "js:html-close-comment", slot: true, val: s[i+3 : j]})
 			i = j
 		case strings.HasPrefix(s[i:], "/*"):
 			j := strings.Index(s[i+2:], "*/")
@@ -196,7 +221,11 @@ func jsTokens(s string) []tok {
 				out = append(out, tok{sig: "js:block-comment-UNTERMINATED", slot: true, val: s[i+2:]})
 				i = len(s)
 			} else {
-				out = append(out, tok{sig: "js:block-comment", slot: true, val: s[i+2 : i+2+j]})
+				body := s[i+2 : i+2+j]
+				if strings.ContainsAny(body, "\n\r") || strings.Contains(body, "\u2028") || strings.Contains(body, "\u2029") {
+					lineStart = true // a multi-line comment counts as a line terminator
+				}
+				out = append(out, tok{sig: "js:block-comment", slot: true, val: body})
 				i += j + 4
 			}
 		case c == '"' || c == '\'':
